@@ -40,7 +40,29 @@ class TS:
         ports = list(ports)
         self.ports = ports
         self.fragment = Fragment.get(elaboratable, None)
-        self.design = self.fragment.prepare(ports=ports, hierarchy=(name,))
+        # Port directions are decided here, not by Amaranth's "is any net connected" heuristic (which
+        # turns a port driven by a constant into a free input): a port is an input iff no statement of
+        # any fragment assigns it and it is not a memory read-port output.
+        driven = set()
+
+        def walk(frag):
+            for dom, stmts in frag.statements.items():
+                for sgn in stmts._lhs_signals():
+                    driven.add(id(sgn))
+            rps = getattr(frag, "_read_ports", None)
+            if rps is not None:
+                for rp in rps:
+                    d = getattr(rp, "_data", None)
+                    if d is not None:
+                        for sgn in d._lhs_signals():
+                            driven.add(id(sgn))
+            for sub, _n, _l in frag.subfragments:
+                walk(sub)
+        walk(self.fragment)
+        from amaranth.hdl._ir import PortDirection
+        plist = [(None, sgn, PortDirection.Output if id(sgn) in driven else PortDirection.Input)
+                 for sgn in ports]
+        self.design = self.fragment.prepare(ports=plist, hierarchy=(name,))
         self.netlist = nl = build_netlist(self.design)
         self.cells = nl.cells
         top = nl.top
@@ -86,6 +108,20 @@ class TS:
         if len(clk) > 1:
             raise Unsupported(f"multiple clocks {clk}")
 
+    def bind_memories(self, mems):
+        """mems: list of (MemoryData, hint). hint None = the only memory; else a substring of the
+        hierarchical module path / memory name of the NIR cell."""
+        self.memmap = {}
+        for md, hint in mems:
+            cands = []
+            for i, c in self.mems.items():
+                path = "/".join(self.netlist.modules[c.module_idx].name) + "/" + str(c.name)
+                if hint is None or hint in path:
+                    cands.append(i)
+            if len(cands) != 1:
+                raise Unsupported(f"cannot identify memory {hint!r}: {len(cands)} candidates")
+            self.memmap[id(md)] = cands[0]
+
     # ---- sizes (for evidence) ------------------------------------------------------------------
     def stats(self):
         return {"cells": len(self.cells), "ffs": len(self.ffs),
@@ -118,7 +154,7 @@ class TS:
         return {k: z3.BitVec(f"{tag}_{'_'.join(map(str, k))}", w) for k, w in self.state_keys()}
 
     def free_inputs(self, tag):
-        return {p: z3.BitVec(f"{tag}_{p}", w) for p, (s, w) in self.inputs.items()}
+        return {p: z3.BitVec(f"{tag}_{p}", w) for p, (s, w) in self.inputs.items() if w > 0}
 
     def frame(self, state, inputs):
         return Frame(self, state, inputs)
@@ -205,6 +241,10 @@ class Frame:
             op = c.operator
             if len(ins) == 1:
                 a, = ins
+                if a is None:       # zero-width operand
+                    if op in ("b", "r|", "r^"): return bv(1, 0)
+                    if op == "r&": return bv(1, 1)
+                    return None
                 if op == "~": return ~a
                 if op == "-": return -a
                 if op == "b": return _b2v(a != 0)
@@ -217,6 +257,14 @@ class Frame:
                     return r
             elif len(ins) == 2:
                 a, b = ins
+                if a is None or b is None:
+                    if a is None and b is None:
+                        if op in ("==", "u<=", "u>=", "s<=", "s>="): return bv(1, 1)
+                        if op in ("!=", "u<", "u>", "s<", "s>"): return bv(1, 0)
+                        return None
+                    if op in ("<<", "u>>", "s>>") and b is None:
+                        return a
+                    raise Unsupported(f"operator {op} with one zero-width operand")
                 if op == "+": return a + b
                 if op == "-": return a - b
                 if op == "*": return a * b
@@ -368,9 +416,9 @@ class Frame:
         self._next = st
         return st
 
-    def mem_rows(self, mem_idx):
-        mem = self.ts.mems[mem_idx]
-        return [self.state[("mem", mem_idx, r)] for r in range(mem.depth)]
+    def mem_row(self, memory_data, row):
+        """Content of one row of a memory (identified by its MemoryData object) in this frame."""
+        return self.state[("mem", self.ts.memmap[id(memory_data)], row)]
 
 
 def unroll(ts, k, init="reset", tag="t", state=None):
